@@ -150,9 +150,9 @@ func (c *Check) dictSeq(p *ev.Part, words, alpha []string, lo, hi int, fn func(w
 var sqlDictLeads = []string{"", "'a'", "\"a\"", "U&'a'", "u&'d!0061t'", "n'a'", "q'(a)'", "$$a$$", "$t$a$t$", "x'41'", "b'1'", "e'a'", "1", "1.5e3", "a", "@a", "`a`", "(", ")", ",", ";", "/**/", "select", "1 or", "'", "\"", "1 union select", "--", "#", "/*"}
 var sqlDictTail = []string{"'", "\"", "(", "a", "1", " ", "$", "\\", "!", ")"}
 
-func (c *Check) sqlDictInputs(p *ev.Part, fn func(w *Worker, s string)) {
+func (c *Check) sqlDictInputs(p *ev.Part, maxTail int, fn func(w *Worker, s string)) {
 	words := dictWords(srcDict().SQL)
-	c.EnumSeq(p, sqlDictTail, "", 0, 3, func(w *Worker, tail string) {
+	c.EnumSeq(p, sqlDictTail, "", 0, maxTail, func(w *Worker, tail string) {
 		for _, wd := range words {
 			for _, ld := range sqlDictLeads {
 				fn(w, ld+wd+tail)
